@@ -19,4 +19,37 @@ PROPS = {
             "source order = pre-order in declaration order of pt.rs",
         ],
     },
+    "C02": {
+        "theorems": {
+            "Solstat.Props.C02": [
+                "lineLoop_count", "lineOf_eq", "lineOf_spec", "mem_lineSet", "ascending_lineSet",
+                "analyzeLines_spec", "analyzeLines_ascending",
+            ],
+        },
+        "obs": [("line", []), ("det", [])],
+        "kinds": ["LINE", "LINES"],
+        "assumptions": [
+            "a flagged construct starts inside the file on a byte that is not a line feed (token starts; evaluated per request: LINE requests with the offset on a line feed or past the end are outside the oracle's domain)",
+            "line counts stay below 2^31 (i32 in the code, Nat in the model)",
+            "regex crate: captures_iter of `\\n` yields the ascending byte positions of line feeds",
+        ],
+    },
+    "C10": {
+        "theorems": {
+            "Solstat.Props.C10": [
+                "slots_fold_eq_layout_fold", "layout_used_pos", "slots_eq_layout", "slots_no_overflow", "sortNat_perm",
+                "sortNat_sorted", "report_sound", "report_not_if_optimal", "report_if_sorting_saves",
+                "report_if_both_sorts_save", "typeSize_bool", "typeSize_address", "typeSize_address_payable",
+                "typeSize_uint", "typeSize_int", "typeSize_bytes", "typeSize_other_type", "typeSize_residue_empty",
+                "typeSize_non_type", "typeSize_eq_spec_elementary",
+            ],
+        },
+        "obs": [("slots", []), ("det", ["--nolines", "pack_"])],
+        "kinds": ["SLOTS", "TYSZ", "DET"],
+        "groups": ["pack"],
+        "assumptions": [
+            "sizes are between 1 and 256 bits (every type size the table can produce on parser output: 8..256); u16/u32 arithmetic cannot overflow there (theorem slots_no_overflow)",
+            "Vec::sort on u16 is the ascending sort",
+        ],
+    },
 }
